@@ -110,6 +110,7 @@ def run(ctx):
     impl = h.run(cases)
     model = coqbuild.run_model(mlines)
     ctx.log(f"implementation answered {len(impl)}, model answered {len(model)}")
+    ctx.vm_crosscheck(mlines, model)
     coefs = C06.coef_table(t, TYPES)
     bad, disagreements = [], []
     hist, distinct = {}, set()
